@@ -38,7 +38,7 @@ def main():
         print("DONE", 1, flush=True)
         return
     ver = c.execute("select version from meta").fetchone()[0] + 1
-    spill = scenario.startswith("spill") or scenario in ("update-many", "grow", "delete-freelist", "two-statements")
+    spill = scenario.startswith("spill") or scenario in ("update-many", "grow", "delete-freelist", "two-statements", "alter-spill")
     if spill:
         c.execute("pragma cache_size=8")     # forces dirty pages out before commit
     else:
@@ -60,6 +60,11 @@ def main():
         c.execute("update t set ver=? where (id % 3) = 0", (ver,))
         c.execute("create table if not exists t_extra(a, b)")
         c.execute("insert into t_extra values(?, ?)", (ver, "extra"))
+    elif scenario == "alter-spill":
+        # a schema change whose page (sqlite_master, here page 1 with the new schema cookie) is spilled into the
+        # database file long before the commit
+        c.execute("alter table t add column phantom default 'ph'")
+        c.execute("update t set ver=?, pad = pad || 'u'", (ver,))
     elif scenario == "pending":
         # a reader in another process holds SHARED: COMMIT gets PENDING, cannot get EXCLUSIVE
         c.executemany("insert into t(v, ver, pad) values(?,?,?)", [(i, ver, "pending") for i in range(5)])
